@@ -87,15 +87,54 @@ class Vpes:
                 return [tg.get(idx, t["otherwise"])]
         return b.succ[bi]
 
-    def region(self, sigma):
+    def _reach(self, sigma, pinned):
         seen = {0}
         dq = deque([0])
         while dq:
             x = dq.popleft()
-            for s in self.succ_under(x, sigma):
+            succ = pinned[x] if x in pinned else self.succ_under(x, sigma)
+            for s in succ:
                 if s not in seen:
                     seen.add(s)
                     dq.append(s)
+        return seen
+
+    def region(self, sigma):
+        """blocks reachable under sigma. Refinement: a switch on a plain local (e.g. the bool that `matches!(schema, ..)`
+        or a match guard leaves behind) all of whose definitions inside the region assign the same constant follows
+        only that constant's edge; iterated to a fixpoint (each step only removes blocks, so it terminates)."""
+        b = self.b
+        pinned = {}
+        seen = self._reach(sigma, pinned)
+        for _ in range(20):
+            changed = False
+            for bi in sorted(seen):
+                if bi in pinned or bi in self.switches:
+                    continue
+                t = b.blocks[bi]["term"]
+                if t["t"] != "switch":
+                    continue
+                l = op_local(t["discr"])
+                if l is None or t["discr"]["pl"]["p"]:
+                    continue
+                vals = set()
+                unknown = False
+                for (dbi, si, kind, payload) in b.defs.get(l, []):
+                    if dbi not in seen:
+                        continue
+                    if kind == "assign" and payload["r"] == "use" and payload["o"].get("k") == "const" and "int" in payload["o"]:
+                        vals.add(payload["o"]["int"])
+                    else:
+                        unknown = True
+                if unknown or len(vals) != 1 or (1 <= l <= b.argc):
+                    continue
+                v = next(iter(vals))
+                tg = dict(t["targets"])
+                pinned[bi] = [tg.get(v, t["otherwise"])]
+                changed = True
+            if not changed:
+                break
+            seen = self._reach(sigma, pinned)
         return seen
 
     def nested_keys_in(self, region, sigma):
